@@ -716,3 +716,9 @@ def r14(rr, repo):
         rr.ob('the envelope carries a per-incarnation value and the receiver compares it', marker is not None and compared, za.mod, env,
               witness=f"envelope fields besides 'mid' and 'topics': {'; '.join(seen) or 'none'}" + (f"; marker {marker!r} compared by the receiver: {compared}" if marker else '; none of them differs between two incarnations of a publisher with a configured id'),
               key='no-incarnation-on-the-wire')
+
+
+@rule('C01.R15', "a set never holds more than the source published under that id: the half set a closing source leaves behind is dropped, it cannot be completed by the next publisher on the address (shares C02.R13)")
+def r15(rr, repo):
+    from .c02 import r13 as c02r13
+    c02r13(rr, repo)
